@@ -181,7 +181,9 @@ func (m *Metrics) logMetrics() {
 	heartbeat := time.Tick(metricsResolution)
 	for range heartbeat {
 		m.printMetrics()
+		m.lock.Lock()
 		m.zeroMetrics()
+		m.lock.Unlock()
 	}
 }
 
